@@ -130,6 +130,25 @@ def build_property(pid):
     return res
 
 
+def changed_sources(prop):
+    """files the property is anchored in whose content differs from fingerprints.json (the pinned tree)"""
+    import hashlib
+    try:
+        fp = json.load(open(os.path.join(lib.VERIF, 'fingerprints.json')))['files']
+    except Exception:  # noqa
+        return []
+    out = []
+    for f in prop.get('anchors', {}).get('files', []):
+        p = os.path.join(lib.REPO, f)
+        try:
+            h = hashlib.sha256(open(p, 'rb').read()).hexdigest()
+        except OSError:
+            h = None
+        if fp.get(f) != h:
+            out.append(f)
+    return out
+
+
 def enclosing(path, line):
     last = '?'
     try:
@@ -170,6 +189,9 @@ def main():
     if args.replay:
         sys.exit(fam.replay(pid, args.replay))
     prop = prop_text(pid)
+    changed = changed_sources(prop)
+    if changed:                                  # the code this property is anchored in is not the pinned one: look harder
+        os.environ['VERIF_BOOST'] = '4'
     build = build_property(pid)
     broken = list(build['broken'])
     # correspondence
@@ -180,7 +202,7 @@ def main():
     broken += corr.get('broken', [])
     # search (always runs: cheaply when nothing broke, at full volume when something did)
     try:
-        witnesses, searched = fam.search(pid, tier, seed, escalate=bool(broken), hints=corr.get('failing_cases', []))
+        witnesses, searched = fam.search(pid, tier, seed, escalate=bool(broken) or bool(changed), hints=corr.get('failing_cases', []))
     except Exception:  # noqa
         witnesses, searched = [], 0
         broken.append('search crashed: ' + traceback.format_exc()[-1500:])
@@ -227,6 +249,7 @@ def main():
         coverage=dict(
             obligations=len(build['obligations']), discharged=len(build['discharged']),
             obligation_names=build['obligations'],
+            source_files_changed_since_pinned_tree=changed,
             checker_cmd=f'cd coq && make Properties/{pid}.vo  (coqc 8.16.1, full .vo build; coq/gen regenerated from /repo by harness/translate.py first)',
             trusted_base=TRUSTED + [f'axioms reported by Print Assumptions: {build["assumptions"]}'],
             evaluations=int(corr.get('evaluations', 0)) + int(searched),
